@@ -394,7 +394,7 @@ class FifoFeeder:
 def logrec_line(cmd, a, host):
     return " ".join([cmd, tok(a["name"]), tok(a["msg"]), str(a["levelno"]), tok(a["levelname"]), *dt_toks(a["dt"]),
                      tok(a["pathname"]), str(a["lineno"]), tok(a["func"]), tags_tok(a["tags"]),
-                     "n" if a["exc"] is None else tok(a["exc"]), tok(host)])
+                     "n" if a["exc"] is None else tok(a["exc"]), "n" if a.get("stack") is None else tok(a["stack"]), tok(host)])
 
 
 def attrs_of(record: logging.LogRecord, tz):
@@ -402,7 +402,8 @@ def attrs_of(record: logging.LogRecord, tz):
     return {"name": record.name, "msg": record.getMessage(), "levelno": record.levelno, "levelname": record.levelname,
             "dt": datetime.datetime.fromtimestamp(record.created, tz=tz), "pathname": record.pathname, "lineno": record.lineno,
             "func": record.funcName, "tags": record.__dict__["tags"] if "tags" in record.__dict__ else None,
-            "exc": logging.Formatter().formatException(record.exc_info) if record.exc_info else None}
+            "exc": logging.Formatter().formatException(record.exc_info) if record.exc_info else None,
+            "stack": record.stack_info}
 
 
 # ------------------------------------------------------------------------------------------------------------
@@ -748,12 +749,12 @@ def part_format_direct(env, ctx):
                 elif m.startswith("log"):
                     lg.log(int(m[3:]) or 35, text, exc_info=True, extra=extra)
                 else:
-                    getattr(lg, m)(text, exc_info=True, extra=extra)
+                    getattr(lg, m)(text, exc_info=True, extra=extra, stack_info=rng.random() < 0.2)
             else:
                 if m.startswith("log"):
                     lg.log(int(m[3:]) or 35, text, extra=extra)
                 else:
-                    getattr(lg, m)(text, extra=extra)
+                    getattr(lg, m)(text, extra=extra, stack_info=rng.random() < 0.2)
     finally:
         logging.disable(logging.CRITICAL)
         lg.removeHandler(h)
